@@ -402,6 +402,15 @@ bool Importer::ImporterImpl::fetchModel(const ImportSourcePtr &importSource, con
     } else {
         model = mLibrary[url];
     }
+    if (model == nullptr) {
+        // The library entry has been emptied (replaceModel() with a null model): there is nothing to import from.
+        auto issue = Issue::IssueImpl::create();
+        issue->mPimpl->setDescription("The attempt to resolve imports with the model at '" + url + "' failed: the importer library holds no model for it.");
+        issue->mPimpl->mItem->mPimpl->setImportSource(importSource);
+        issue->mPimpl->setReferenceRule(Issue::ReferenceRule::IMPORTER_NULL_MODEL);
+        addIssue(issue);
+        return false;
+    }
     importSource->setModel(model);
     return true;
 }
